@@ -92,6 +92,10 @@ def make(I, v, conv, spec):
         return None
     if isinstance(v, SV):
         if v.ty == "str" and conv in (-1, ord("s")):
+            m = _re.search(r"\.(\d+)", spec or "")
+            if m:      # precision on a string truncates it
+                n = int(m.group(1))
+                v = SV(z3.SubString(v.z, 0, z3.If(z3.Length(v.z) < n, z3.Length(v.z), z3.IntVal(n))), "str")
             return SStr([Tok("str", v, spec)])
         if v.ty == "int" and conv == -1:
             return SStr([Tok("int", v, spec)])
